@@ -19,6 +19,10 @@ IOV_MAX = 1024
 # Two defects found by this check were repaired in /repo (995ab40: uv__fs_write_all stopped at a
 # window of IOV_MAX empty buffers; fadabd2: io_uring ftruncate length in the wrong sqe field).
 # Their witnesses stay in corpus/C11 as regression cases; a return is a plain violation.
+# open finding (see notes/C11.md): exercised in the normal run once the key is registered in
+# known_findings.json (any status); always reproducible with
+#   bin/check C11 --replay corpus/C11/statx_retry_leak.replay.json
+K_STATX = "ring_statx_eopnotsupp_retry_leaks_statxbuf"
 WRAPS_BUFS = ["write", "writev", "pwrite64", "read", "readv", "pread64"]
 
 
@@ -424,6 +428,7 @@ def routes_monitor_parsed(case, p):
     if len(ops) != len(p["ops"]):
         return "harness reported %d operations for %d" % (len(p["ops"]), len(ops))
     ring_off = False
+    known = None
     for txt, o in zip(ops, p["ops"]):
         name = o["name"]
         for rt in "SPRX":
@@ -440,6 +445,16 @@ def routes_monitor_parsed(case, p):
             m = c.get("m", "").split(",")
             if m[2:] != ["0", "0"]:
                 return "op %d (%s): %s uv__malloc blocks live after uv_fs_req_cleanup of a cancelled request" % (o["i"], txt, m[2])
+            continue
+        if name == "statx95":
+            c = o["R"][0]
+            if c.get("res") == "-":
+                continue
+            if c.get("cb") != "1":
+                return "op %d (%s): %s callbacks after the -EOPNOTSUPP completion" % (o["i"], txt, c.get("cb"))
+            m = c.get("m", "0,0,0,0").split(",")
+            if m[2:] != ["0", "0"]:
+                known = "KNOWN:" + K_STATX
             continue
         routes = "SPX" if ring_off else "SPRX"
         ref = (cell_res(o["X"]), cell_out(o["X"]))
@@ -472,7 +487,7 @@ def routes_monitor_parsed(case, p):
     for rt in ("SPX" if ring_off else "SPRX"):
         if t.get(rt) != t.get("X"):
             return "resulting tree of route %s differs from the POSIX mirror" % rt
-    return None
+    return known
 
 
 # ----------------------------------------------------------------------------
@@ -501,6 +516,15 @@ def run_robust(cmd, cases, shards=8, env=None, keep=lambda l: True):
     for _, e in res:
         extra += e
     return [r for r, _ in res], extra, err or ""
+
+
+def key_registered(key):
+    p = os.path.join(vf.VERIF, "known_findings.json")
+    try:
+        return any(f.get("property") == "C11" and f.get("key") == key
+                   for f in json.load(open(p)).get("findings", []))
+    except (OSError, ValueError):
+        return False
 
 
 def read_corpus(name):
@@ -569,7 +593,8 @@ def main():
     # ---- (ii) routes ----
     trees = os.path.join(chk.scratch.dir, "trees")
     os.makedirs(trees, exist_ok=True)
-    rcs = read_corpus("routes.txt") + routes_cases(chk.rng, 4000 if thorough else 300)
+    rcs = read_corpus("routes.txt") + (read_corpus("routes_statx.txt") if key_registered(K_STATX) else []) + \
+        routes_cases(chk.rng, 4000 if thorough else 300)
     if replay_case:
         rcs = [replay_case[1]] if replay_case[0].startswith("routes") and replay_case[1] else []
     if rcs:
